@@ -793,8 +793,13 @@ class Facts:
                            else [r.value]):
                     if isinstance(el, ast.Name):
                         kept.add(el.id + tag)
+        # ... and when the caller goes on according to what the helper
+        # returned (threaded continuations), what the helper had tested on
+        # the way to that return is what the caller's branch rests on
+        threaded = n.extra.get('ret_class') is not None or \
+            n.extra.get('null_ret') is not None
         out = frozenset(
-            a for a in st if tag not in a[1] or
+            a for a in st if tag not in a[1] or threaded or
             (kept and all(kp in kept for kp in key_paths(a[1])
                           if tag in kp))) | frozenset(add)
         # a threaded call (the caller branches on the result): this
